@@ -243,6 +243,11 @@ def explore(ctx):
             # a kerning pair present in the last master only (with layout merged per master fontTools' varLib
             # merger needs every pair in the default master: "Base master not found" -- environment limit)
             masters[-1]["kerning"][(names[2], names[0])] = Fr(-33)
+            if len(names) > 3 and names[3] != "acutecomb":
+                # ... and a kerning GROUP that only the last master defines, with a class pair using it
+                masters[-1]["groups"] = dict(masters[-1]["groups"], **{"public.kern1.X": [names[3]]})
+                masters[-1]["kerning"][("public.kern1.X", names[0])] = Fr(-22)
+                ctx.klass("kerning group defined by a non-default master only")
         # (merged layout needs structurally identical per-master GPOS: same pairs in every master)
         if multi:
             from fontTools.designspaceLib import VariableFontDescriptor, RangeAxisSubsetDescriptor, ValueAxisSubsetDescriptor
@@ -357,9 +362,14 @@ def explore(ctx):
                         return m["kerning"][key]
                 return 0
             glyph_pairs = set()
+            allgroups = {}
+            for mm in masters:
+                for gk, gv in mm.get("groups", {}).items():
+                    allgroups.setdefault(gk, [])
+                    allgroups[gk] += [x for x in gv if x not in allgroups[gk]]
             for (a, b) in allkeys:
-                for g1 in (groups.get(a) or [a]):
-                    for g2 in (groups.get(b) or [b]):
+                for g1 in (allgroups.get(a) or [a]):
+                    for g2 in (allgroups.get(b) or [b]):
                         glyph_pairs.add((g1, g2))
             for (g1, g2) in sorted(glyph_pairs):
                 want = geom.ot_round(ufo_value(m, g1, g2))
